@@ -264,8 +264,23 @@ impl EGraph {
                     for (rule_id, _rule) in rules.iter() {
                         let rule_info = record.rule_info.get_mut(rule_id).unwrap();
 
-                        let matches: Vec<Value> =
+                        let mut matches: Vec<Value> =
                             std::mem::take(rule_info.matches.lock().unwrap().as_mut());
+                        // Matches held back in earlier steps live outside the database,
+                        // so no rebuild has touched them: bring their e-class ids up to
+                        // date before they are offered again and, possibly, applied.
+                        if !rule_info.free_vars.is_empty() {
+                            let tys: Vec<ColumnTy> = rule_info
+                                .free_vars
+                                .iter()
+                                .map(|v| v.sort.column_ty(&self.backend))
+                                .collect();
+                            for row in matches.chunks_mut(tys.len()) {
+                                for (val, ty) in row.iter_mut().zip(tys.iter()) {
+                                    *val = self.backend.get_canon_repr(*val, *ty);
+                                }
+                            }
+                        }
                         let mut matches = Matches::new(matches, rule_info.free_vars.clone());
                         rule_info.should_seek =
                             record
